@@ -57,6 +57,9 @@ THEOREMS = [NS + n for n in [
     "generated_compares_ignored_leaves",
     "copy_imp_delta_empty_linked",
     "missing_parent_link_move_witness",
+    "diff_leaf_skip_matches_eq",
+    "leaf_difference_seen_iff_eq_sees",
+    "not_value_variant_witness",
 ]]
 
 
@@ -200,6 +203,69 @@ def translate(chk: Check) -> str:
             problems.append(f"diff(): wrapper shape '{k}' not recognised")
             wp[k] = dflt
     chk.cov["wrapper_policy"] = dict(wp)
+    # ---- the leaf predicate: which values of a non-expression arg diff skips / __hash__ ignores (9 value classes)
+    VAL = [("absent", None), ("none", None), ("false_", False), ("emptyList", []), ("zero", 0), ("emptyStr", ""),
+           ("one", 1), ("str", "x"), ("true_", True)]
+    diff_skips = eq_ignores = eq_ignores_raw = None
+    try:
+        from sqlglot import exp as _exp
+        from sqlglot.helper import seq_get as _seq_get
+
+        fn = [n for n in tree.body if isinstance(n, ast.FunctionDef) and n.name == "_get_non_expression_leaves"][0]
+        loop = [n for n in fn.body if isinstance(n, ast.For)][0]
+        first = loop.body[0]
+        if not (ast.unparse(loop.iter) == "expression.args.items()" and isinstance(first, ast.If)
+                and len(first.body) == 1 and isinstance(first.body[0], ast.Continue) and not first.orelse
+                and ast.unparse(loop.body[-1]) == "yield (arg, value)"):
+            raise ValueError("shape of _get_non_expression_leaves")
+        code = compile(ast.Expression(first.test), "<leaf-skip>", "eval")
+        diff_skips = {"absent": True}
+        for nm, v in VAL[1:]:
+            diff_skips[nm] = bool(eval(code, {"exp": _exp, "seq_get": _seq_get, "isinstance": isinstance, "value": v, "t": None}))
+        core = ast.parse(open(os.path.join(REPO, "sqlglot", "expressions", "core.py"), encoding="utf-8").read())
+        hfn = [f for c in core.body if isinstance(c, ast.ClassDef) and c.name in ("Expr", "Expression")
+               for f in c.body if isinstance(f, ast.FunctionDef) and f.name == "__hash__"][0]
+        raw_if = [n for n in ast.walk(hfn) if isinstance(n, ast.If) and ast.unparse(n.test) == "node._hash_raw_args"][0]
+        raw_test = [n for n in ast.walk(raw_if.body[0]) if isinstance(n, ast.If)][0]
+        if "hash_ = hash((hash_, k, v))" not in ast.unparse(raw_test):
+            raise ValueError("raw branch of __hash__")
+        raw_code = compile(ast.Expression(raw_test.test), "<raw>", "eval")
+        norm_for = raw_if.orelse[0]
+        list_if = [n for n in norm_for.body if isinstance(n, ast.If)][0]
+        if ast.unparse(list_if.test) != "vt is list" or not isinstance(list_if.body[0], ast.For) \
+                or ast.unparse(list_if.body[0].iter) != "v":
+            raise ValueError("list branch of __hash__")
+        inner = list_if.body[0].body[0]
+        if not (isinstance(inner, ast.If) and "hash_ = " in ast.unparse(inner.body[0]) and inner.orelse
+                and "hash_ = " in ast.unparse(inner.orelse[0])):
+            raise ValueError("list elements of __hash__ do not all contribute")
+        scalar_if = list_if.orelse[0]
+        if not (isinstance(scalar_if, ast.If) and "hash_ = hash((hash_, k," in ast.unparse(scalar_if.body[0]) and not scalar_if.orelse):
+            raise ValueError("scalar branch of __hash__")
+        sc_code = compile(ast.Expression(scalar_if.test), "<scalar>", "eval")
+        eq_ignores, eq_ignores_raw = {"absent": True}, {"absent": True}
+        for nm, v in VAL[1:]:
+            if type(v) is list:
+                eq_ignores[nm] = len(v) == 0
+            else:
+                eq_ignores[nm] = not bool(eval(sc_code, {"v": v, "vt": type(v)}))
+            eq_ignores_raw[nm] = not bool(eval(raw_code, {"v": v}))
+    except Exception as e:  # noqa
+        problems.append(f"leaf predicate of _get_non_expression_leaves / Expr.__hash__ not recognised ({e})")
+    if diff_skips is None or eq_ignores is None:
+        dflt = {nm: nm in ("absent", "none", "false_", "emptyList") for nm, _ in VAL}
+        diff_skips, eq_ignores = diff_skips or dflt, eq_ignores or dflt
+        eq_ignores_raw = eq_ignores_raw or dflt
+    chk.cov["leaf_policy"] = {"diff_skips": [k for k, v in diff_skips.items() if v], "eq_ignores": [k for k, v in eq_ignores.items() if v],
+                              "eq_ignores_raw_hash_classes": [k for k, v in eq_ignores_raw.items() if v]}
+    arms = lambda d: "".join(f"\n    | .{nm} => {'true' if d[nm] else 'false'}" for nm, _ in VAL)
+    translate.leaf_tables = (
+        "def leafPolicy : SqlglotModel.Diff.LeafPolicy where\n"
+        f"  diffSkips := fun v => match v with{arms(diff_skips)}\n"
+        f"  eqIgnores := fun v => match v with{arms(eq_ignores)}\n"
+        "/-- for the classes with `_hash_raw_args` (Literal, Identifier): informational -/\n"
+        f"def eqIgnoresRawHash : SqlglotModel.Diff.ValClass → Bool := fun v => match v with{arms(eq_ignores_raw)}\n"
+    )
     if def_f is None or def_t is None:
         problems.append("ChangeDistiller.__init__ defaults f/t not recognised")
         def_f, def_t = def_f or Fraction(3, 5), def_t or Fraction(3, 5)
@@ -223,6 +289,7 @@ def translate(chk: Check) -> str:
         f"def comparesIgnoredLeaves : Bool := {'true' if cmp_idents else 'false'}\n"
         f"def countsPrematchedLeaves : Bool := {'true' if count_pre else 'false'}\n"
         f"def wrapperPolicy : SqlglotModel.Diff.Wrapper.Policy := ⟨.{wp['src']}, .{wp['tgt']}, .{wp['evict']}⟩\n"
+        + translate.leaf_tables +
         "end SqlglotModel.Generated.C20\n"
     )
 
@@ -416,7 +483,7 @@ def real_case(src, tgt, pre_idx, delta_only, f, t_frac, dialect=None):
 
 def validate_axioms(tap, sj, tj, ids, nodes, dice):
     """The oracle axiomatisations the Lean theorems assume, checked on everything shipped in this case:
-    DiceOk  : 0 <= dice <= 1; equal rendered text => dice = 1; dice(a, a) = 1; dice symmetric (sampled)
+    DiceOk  : 0 <= dice <= 1; equal rendered text and == => dice = 1; dice(a, a) = 1; dice symmetric (sampled)
     EqcCongr: same class, equal non-expression leaves, equal identifier children, equal child layout and pairwise ==
               expression children  =>  the two nodes are ==  (structural congruence of Expr.__eq__)"""
     bad = []
@@ -428,8 +495,8 @@ def validate_axioms(tap, sj, tj, ids, nodes, dice):
         ra, rb = rows[ids[a]], rows[ids[b]]
         if not (0.0 <= v <= 1.0):
             bad.append(f"dice out of range: {v}")
-        if ra[10] == rb[10] and v != 1.0:
-            bad.append(f"equal text but dice={v} for {nodes[ids[a]].sql()!r}")
+        if ra[10] == rb[10] and ra[8] == rb[8] and v != 1.0:
+            bad.append(f"equal text and == but dice={v} for {nodes[ids[a]].sql()!r}")
         if k % 17 == 0:
             try:
                 if o_dice(tap.cd, nodes[ids[b]], nodes[ids[a]]) != v:
@@ -802,6 +869,22 @@ T_CHOICES = [Fraction(3, 5), Fraction(3, 5), Fraction(3, 5), Fraction(1, 5), Fra
 # ---- PARSED statements of each dialect's distinctive constructs (trees the base fragment never produces: other node
 #      classes, other constructors, parser paths that build nodes by hand).  Statements that do not parse are skipped.
 DIALECT_CORPUS = {
+    None: [
+        "SELECT JSON_EXTRACT(x, '$.a[0:2]') FROM t",
+        "SELECT JSON_EXTRACT(x, '$.a[:2]') FROM t",
+        "SELECT JSON_EXTRACT(x, '$.a[1]'), JSON_EXTRACT(x, '$[*].b') FROM t",
+        "SELECT JSON_EXTRACT(x, '$..a'), JSON_EXTRACT_SCALAR(x, '$.a.b') FROM t",
+        "SELECT a FROM t ORDER BY a DESC NULLS FIRST, b",
+        "SELECT DISTINCT a FROM t UNION ALL SELECT b FROM u",
+        "SELECT SUM(a) OVER (PARTITION BY b ORDER BY c ROWS BETWEEN 1 PRECEDING AND CURRENT ROW) FROM t",
+        "SELECT CAST(a AS DECIMAL(10, 2)), TRY_CAST(b AS INT) FROM t",
+        "SELECT a FROM t TABLESAMPLE (10) LEFT JOIN u USING (id) WHERE x IN (1, 2) AND y NOT LIKE 'a%'",
+        "SELECT EXTRACT(YEAR FROM d), INTERVAL '1' DAY, x BETWEEN 1 AND 2 FROM t",
+        "CREATE TABLE t (a INT NOT NULL, b TEXT DEFAULT 'x', PRIMARY KEY (a))",
+        "INSERT INTO t (a, b) VALUES (1, 'x'), (2, 'y')",
+        "UPDATE t SET a = 1 WHERE b = 2",
+        "SELECT LISTAGG(a, ',') WITHIN GROUP (ORDER BY a), COUNT(DISTINCT a), FIRST_VALUE(a) IGNORE NULLS OVER (ORDER BY b) FROM t",
+    ],
     "clickhouse": [
         "SELECT {abc: UInt32}",
         "SELECT toDate({d: String}) AS d, count(*) FROM events GROUP BY d",
@@ -926,6 +1009,109 @@ def dialect_corpus():
     return out
 
 
+ABSENT = object()
+SCALAR_VALUES = [("absent", ABSENT), ("none", None), ("false", False), ("empty-list", []), ("zero", 0), ("empty-str", ""),
+                 ("one", 1), ("str", "x"), ("true", True)]
+
+
+def value_class(v) -> str:
+    if v is ABSENT:
+        return "absent"
+    if v is None:
+        return "none"
+    if v is True or v is False:
+        return "true" if v else "false"
+    if isinstance(v, list):
+        return "empty-list" if not v else "list"
+    if isinstance(v, int):
+        return {0: "zero", 1: "one"}.get(v, "int")
+    if isinstance(v, str):
+        return {"": "empty-str", "x": "str"}.get(v, "other-str")
+    return "other"
+
+
+def is_scalar_value(v) -> bool:
+    return isinstance(v, (bool, int, str)) or (isinstance(v, list) and all(isinstance(x, (bool, int, str)) for x in v))
+
+
+def perturbation_plan(chk):
+    """single-argument perturbations over the parsed corpus: for every Expression class and every non-expression
+    argument it was ever seen with (so also where it is absent), up to `per` occurrences, preferring nodes without an
+    updatable self/ancestor (an Update there would mask a wrong Keep below). -> [(dialect, sql, walk position, arg)]"""
+    _, exp, D = sg()
+    stmts = dialect_corpus() + [(None, q) for pair in CORPUS_SQL for q in pair]
+    trees = []
+    for d, q in stmts:
+        try:
+            trees.append((d, q, parse(q, d)))
+        except Exception:  # noqa
+            pass
+    catalog = set()
+    for _, _, t_ in trees:
+        for n in t_.walk():
+            for k, v in n.args.items():
+                if is_scalar_value(v) and not isinstance(v, list) or (isinstance(v, list) and not v and False):
+                    catalog.add((type(n), k))
+    cands = {}
+    for d, q, t_ in trees:
+        for pos, n in enumerate(t_.walk()):
+            if getattr(n, "_hash_raw_args", False):
+                continue  # Literal / Identifier: their own (raw) hash rule; Identifier is not diffed, Literal always updatable
+            masked = False
+            a = n
+            while a is not None:
+                masked = masked or isinstance(a, D.UPDATABLE_EXPRESSION_TYPES)
+                a = a.parent
+            for k in n.arg_types:
+                if (type(n), k) not in catalog:
+                    continue
+                cur = n.args.get(k, ABSENT)
+                if cur is not ABSENT and cur is not None and not is_scalar_value(cur):
+                    continue
+                cands.setdefault((type(n).__name__, k), []).append((masked, len(q), d, q, pos))
+    per = chk.pick(2, 4)
+    plan = []
+    for key in sorted(cands):
+        for masked, _, d, q, pos in sorted(cands[key], key=lambda c: (c[0], c[1]))[:per]:
+            plan.append((d, q, pos, key[1], key[0], masked))
+    chk.cov["perturbation"] = {"class_arg_pairs": len(cands), "planned_nodes": len(plan),
+                               "unmasked": sum(1 for p_ in plan if not p_[5])}
+    return plan
+
+
+def perturb_case(d, q, pos, arg, vname):
+    """-> (t1, t2) where t2 is a copy of the parsed statement with one non-expression argument set to the value class"""
+    t1 = parse(q, d)
+    t2 = t1.copy()
+    node = list(t2.walk())[pos]
+    v = dict(SCALAR_VALUES)[vname]
+    if v is ABSENT:
+        node.args.pop(arg, None)
+    else:
+        node.args[arg] = list(v) if isinstance(v, list) else v
+    return t1, t2
+
+
+def perturb_oracle(d, q, pos, arg, vname):
+    """'empty delta <=> equal trees' on a single-argument perturbation. -> None | (kind, detail) | 'skip'"""
+    _, _, D = sg()
+    t1, t2 = perturb_case(d, q, pos, arg, vname)
+    kw = {"dialect": d} if d else {}
+    try:
+        delta = D.diff(t1, t2, delta_only=True, **kw)
+        delta_r = D.diff(t2, t1, delta_only=True, **kw)
+    except Exception:  # noqa
+        return "skip"  # an artificial value the SQL generator cannot render: not a statement about diff
+    equal = t1 == t2
+    clear_hashes(t1, t2)
+    for dl in (delta, delta_r):
+        if equal and dl:
+            return ("equal-nonempty", f"source == target but delta has {len(dl)} edit(s)")
+        if not equal and not dl:
+            return ("empty-unequal", "delta is empty although source != target")
+    return None
+
+
 def link_violations(root):
     """The C08 parent-link invariant the diff model assumes of its inputs: every child knows its parent, its arg key and
     its position. -> list of descriptions (empty = holds)"""
@@ -949,12 +1135,14 @@ def build_case(case):
         return src, src.copy()
     if mode == "copy-rev":
         return src.copy(), src
+    if mode == "perturb":
+        return perturb_case(case.get("read"), case["a"], case["pos"], case["arg"], case["value"])
     return src, parse(case["b"], case.get("read"))
 
 
 def correspond(chk: Check) -> list:
     rng = chk.rng
-    n = chk.pick(200, 4000)
+    n = chk.pick(200, 2500)
     cases = []
     for a, b in CORPUS_SQL:
         cases.append({"kind": "corpus", "a": a, "b": b})
@@ -968,7 +1156,15 @@ def correspond(chk: Check) -> list:
         d2, q2 = dc[(i + 1) % len(dc)]
         if d2 == d:
             cases.append({"kind": "dialect-pair", "a": q, "b": q2, "read": d})
-    while len(cases) < n + len(dc):
+    # single-argument perturbations: model vs real (Keep-vs-Update on the leaf dictionaries) and the EqcCongr axiom
+    n_pert = 0
+    for d, q, pos, arg, cls_name, masked in perturbation_plan(chk):
+        if masked or n_pert >= chk.pick(45, 300):
+            continue
+        for vname in ("zero", "empty-str", "false", "absent", "str"):
+            cases.append({"kind": "perturb", "a": q, "b": q, "read": d, "mode": "perturb", "pos": pos, "arg": arg, "value": vname})
+            n_pert += 1
+    while len(cases) < n + len(dc) + n_pert:
         kind, a, b = gen_pair(rng, chk)
         cases.append({"kind": kind, "a": a, "b": b})
     lines, expect, meta = [], [], []
@@ -995,7 +1191,7 @@ def correspond(chk: Check) -> list:
             continue
         chk.count("pair:" + kind)
         variants = [([], False, 0.6, Fraction(3, 5))]
-        if not kind.startswith("dialect") or not chk.quick:
+        if not (kind.startswith("dialect") or kind == "perturb") or not chk.quick:
             pre = random_pre(rng, src, tgt)
             variants.append((pre, rng.random() < 0.5, rng.choice(F_CHOICES), rng.choice(T_CHOICES)))
             if rng.random() < 0.35:
@@ -1013,6 +1209,9 @@ def correspond(chk: Check) -> list:
             if (fingerprint(src, False), fingerprint(tgt, False)) != fp_before:
                 chk.correspondence_broken("the real diff altered its input trees", {"src": a, "tgt": b})
                 bad_inputs.append({"src": a, "tgt": b, "pre": pre_idx, "delta_only": delta_only, "f": f, "t": [tf.numerator, tf.denominator]})
+            if kind == "perturb" and ans.startswith("exception"):
+                chk.count("perturb:unrenderable-artificial-value")  # the SQL generator cannot render the artificial value
+                continue
             for af in axiom_failures:
                 chk.correspondence_broken("oracle axiom (DiceOk / EqcCongr) fails on the real code", {"src": a, "tgt": b, "what": af})
             lines.append(line)
@@ -1630,6 +1829,38 @@ def search(chk: Check, hints: list, budget_s: float) -> None:
             break
         consider(*item)
     # deterministic first: every generator-rewritten construct, every diff dialect family, band pairs
+    # single-argument perturbation sweep: every (Expression class, non-expression argument) of the parsed corpus x the
+    # nine scalar value classes; `==` must agree with emptiness of the delta
+    t_sw = time.time()
+    n_sw = n_skip = 0
+    for d, q, pos, arg, cls_name, masked in perturbation_plan(chk):
+        try:
+            cur = value_class(list(parse(q, d).walk())[pos].args.get(arg, ABSENT))
+        except Exception:  # noqa
+            continue
+        for vname, _v in SCALAR_VALUES:
+            if vname == cur or len(chk.violations) >= 3:
+                continue
+            if {vname, cur} == {"zero", "empty-str"}:
+                chk.count("search:perturbations-skipped-hash-collision")  # hash(0) == hash(""): Expr.__eq__ is hash-based (assumption A-hash)
+                continue
+            res = perturb_oracle(d, q, pos, arg, vname)
+            n_sw += 1
+            if res == "skip":
+                n_skip += 1
+            elif res:
+                kind, detail = res
+                found += 1
+                t1, t2 = perturb_case(d, q, pos, arg, vname)
+                cause = f"scalar-arg:{cur}-vs-{vname}"
+                chk.report_violation(f"{kind}:{cause}|{cls_name}.{arg}" + ("|masked" if masked else ""),
+                                     f"{detail}: {cls_name}.{arg} is {cur} in the source and {vname} in the target",
+                                     {"kind": "perturb", "read": d, "sql": q, "pos": pos, "arg": arg, "value": vname,
+                                      "src": dump_tree(t1), "tgt": dump_tree(t2), "src_sql": q, "tgt_sql": None},
+                                     context={"kind": kind, "cause": cause})
+    chk.count("search:perturbations", n_sw)
+    chk.count("search:perturbations-unrenderable", n_skip)
+    chk.cov.setdefault("perturbation", {})["seconds"] = round(time.time() - t_sw, 1)
     # PARSED statements of every dialect's distinctive constructs: tree vs its copy (both directions, must be all-Keep),
     # tree vs the re-parse of its own SQL, pairs of statements of one dialect (partition / inputs unchanged)
     dc = dialect_corpus()
@@ -1708,6 +1939,7 @@ def run(chk: Check) -> None:
         "Expr.__eq__ / dict equality of non-expression leaves / _is_same_type are shipped as equivalence-class numbers computed by the real code",
         "leaf-similarity thresholds are compared as exact rationals (0.8=4/5, 0.4=2/5, t=p/q); equal to the float comparison for fewer than 2^50 leaves",
         "set iteration order is not modelled: matching sets and edit scripts are compared as sorted multisets",
+        "Expr.__eq__ is hash-based: guaranteed hash collisions between distinct scalars (hash(0) == hash('')) are outside the oracle (assumption A-hash)",
         "theorems assume what diff() establishes by copying: node ids unique within and across the two trees; caller matchings injective, inside the trees, on non-identifier nodes",
         "diff()'s wrapper is modelled on an arena (Wrapper.runDiff) with its shape extracted by the translator; compute_node_mappings (matchings translated to the copies) is covered by the search oracle only",
         "DiceOk (0<=dice<=1, equal rendered text => 1, dice(a,a)=1, symmetry sampled) and EqcCongr (structural congruence of Expr.__eq__) are axiomatisations validated on every shipped pair, not proved",
@@ -1723,7 +1955,7 @@ def run(chk: Check) -> None:
         if proved:
             raise
         chk.note(f"model driver unavailable ({e}); continuing with the search on the real code")
-    budget = chk.pick(12, 240)
+    budget = chk.pick(12, 180)
     if chk.broken:
         budget *= 3
     search(chk, hints, budget)
@@ -1738,6 +1970,11 @@ def replay(path: str) -> int:
     if not r:
         print(json.dumps(rec, indent=1)[:4000])
         return 1
+    if r.get("kind") == "perturb":
+        res = perturb_oracle(r["read"], r["sql"], r["pos"], r["arg"], r["value"])
+        print("replay:", f"VIOLATES: {res[0]}: {res[1]} ({r['arg']} := {r['value']} at walk position {r['pos']} of {r['sql']!r})"
+              if res and res != "skip" else "holds")
+        return 1 if res and res != "skip" else 0
     share = r.get("share")
     share = list(share) if isinstance(share, (list, tuple)) else share
     kw = r.get("kw") or {}
